@@ -193,7 +193,7 @@ def gen_case(ctx, rng):
     if rng.random() < 0.08:
         d = rng.choice([3, 20, 60, 100, 119, 120, 121, 125, 126, 127, 128, 129, 150, 200])
         wrap = "".join(rng.choice("ao") for _ in range(d))
-    n = BATCH if not wrap else 6
+    n = BATCH if not wrap else 6 if len(wrap) <= 100 else 2
     values = []
     for _ in range(n):
         v = gen_top(rng)
